@@ -13,6 +13,7 @@ mod votor;
 mod c09;
 mod c12;
 mod c13;
+mod c14;
 
 use std::fs;
 use std::io::Write;
@@ -157,6 +158,7 @@ fn real_main() {
             let cs = match id {
                 "C12" => c12::gen_c12(seed, tier),
                 "C13" => c13::gen_c13(seed, tier),
+                "C14" => c14::gen_c14(seed, tier),
                 "C15" => c15::generate(seed, tier),
                 "C03" => poolgen::gen_c03(seed, tier),
                 "C04" => poolgen::gen_c04(seed, tier),
